@@ -33,12 +33,16 @@ class C17(Case):
         for i in range(np_):
             if sp.get("scalar") and i == np_ - 1:
                 items = base[i % nc]
+            elif sp.get("lists") == "real":
+                # real Python lists (membership still chosen through the solver, concretised when the list is built)
+                items = [c for j, c in enumerate(seq) if mk.truth("p%d.items#%d" % (i, j))]
             else:
                 items = mk.slist("p%d.items" % i, seq)
             parents.append(Par(k=i, items=items, name="p%d" % i))
         foreign = Elem(w=99, name="foreign")
         outer = base + [foreign]
         data = dict(parents=parents, seq=seq, outer=outer, base=base)
+        snapshot = [list(p_.items) if isinstance(p_.items, list) else None for p_ in parents]
         kind = sp["kind"]
         try:
             with symbolic_mode():
@@ -56,6 +60,9 @@ class C17(Case):
             out = {"first": self._view(res, data)}
             if sp.get("twice"):
                 out["second"] = self._view(list(q.evaluate()), data)
+            data["unchanged"] = all(s_ is None or (len(s_) == len(p_.items) and all(a is b for a, b in zip(s_, p_.items)))
+                                    for s_, p_ in zip(snapshot, parents))
+            data["snapshot"] = snapshot
         except Exception as ex:
             return data, ["exc", type(ex).__name__, str(ex)[:200]]
         return data, out
@@ -77,7 +84,9 @@ class C17(Case):
             if isinstance(it, SList):
                 out += list(zip(it.candidates, it.present))
             elif isinstance(it, list):
-                out += [(c, alg.const(True)) for c in it]
+                snap = data.get("snapshot")
+                orig = snap[data["parents"].index(par)] if snap else it   # the collection as the user built it
+                out += [(c, alg.const(True)) for c in orig]
             else:
                 out.append((it, alg.const(True)))
         return out
@@ -87,7 +96,7 @@ class C17(Case):
             return [("no_exception:%s:%s" % (outcome[1], outcome[2][:80]), alg.const(False))]
         outer = data["outer"]
         slots = self._slots(alg, data)
-        obs = []
+        obs = [("user_collections_unchanged", alg.const(data.get("unchanged", True)))]
         for tag, view in outcome.items():
             if self.spec["kind"] == "value":
                 obs.append((tag + ":exactly_one_row", alg.const(len(view) == 1)))
@@ -133,6 +142,8 @@ def shapes(tier, seed):
                 out.append(dict(kind=kind, parents=parents, cands=nc, repeat=repeat))
         out.append(dict(kind=kind, parents=2, cands=nc, scalar=True))
         out.append(dict(kind=kind, parents=2, cands=nc, twice=True))
+        out.append(dict(kind=kind, parents=2, cands=nc, twice=True, lists="real"))
+        out.append(dict(kind=kind, parents=3, cands=nc, lists="real", repeat=True))
     return out
 
 
